@@ -10,7 +10,7 @@ from vk.build import pack_bp, unpack_bp
 
 ID = 'C12'
 RULE = ('Part tables (exhaustive): every operator (NOT/BUF with 1 operand; AND/OR/XOR with k=1..4 operands) in the formats bp8v, bp4v, '
-        'mv (public 2-operand functions, nested for k>2) and the n-ary array kernels, on ALL 8^k (4^k for the 4-valued operators) operand '
+        'mv (public 2-operand functions, nested for k>2; the private n-ary array kernels are not called directly), on ALL 8^k (4^k for the 4-valued operators) operand '
         'tuples; one enumerated case = (format, operator, k, first operand) and covers all tuples with that first operand, evaluated '
         'packed side by side in lanes and again one tuple alone. Oracle: independent abstract algebra; Boolean restriction; De Morgan. '
         'Part arrays (Hypothesis): array shapes up to 4-D, broadcasting pairs, lane counts, out= (C/F order; an out array aliasing an operand is NOT generated: nothing promises it). '
@@ -35,10 +35,10 @@ def ref_op(op, tup):
 
 
 def enum_tables(tier):
-    for fmt in ('bp8', 'bp4', 'mv', 'mvn'):
+    for fmt in ('bp8', 'bp4', 'mv'):
         alpha = [0, 1, 2, 3] if fmt == 'bp4' else list(range(8))
         for op in ('not', 'buf', 'and', 'or', 'xor'):
-            if op == 'buf' and fmt in ('mv', 'mvn'):
+            if op == 'buf' and fmt == 'mv':
                 continue
             ks = [1] if op in ('not', 'buf') else [1, 2, 3, 4]
             if fmt == 'mv' and op in ('and', 'or', 'xor'):
@@ -75,11 +75,6 @@ def apply_impl(fmt, op, cols):
         for c in cols[2:]:
             r = f(r, c)
         return r
-    if fmt == 'mvn':
-        f = getattr(logic, f'_mv_{op}')
-        out = np.full(n, 0x5a, dtype=np.uint8)
-        f(out, *cols)
-        return out
     raise ValueError(fmt)
 
 
@@ -109,7 +104,7 @@ def prop_tables(case):
             if int(got[i]) != (3 if e else 0):
                 raise Violation(f'{fmt} {op}{t} = {int(got[i])} is not the Boolean operator')
     # De Morgan (implementation against itself): NOT(AND(x..)) == OR(NOT x..) and dual
-    if op in ('and', 'or') and fmt != 'mvn' and not (fmt == 'mv' and k < 2):
+    if op in ('and', 'or') and not (fmt == 'mv' and k < 2):
         dual = 'or' if op == 'and' else 'and'
         lhs = np.array(apply_impl(fmt, 'not', [got.copy()]), dtype=np.uint8)
         ncols = [np.array(apply_impl(fmt, 'not', [c.copy()]), dtype=np.uint8) for c in cols]
